@@ -223,6 +223,31 @@ func c10(c *core.Ctx) {
 		c.Check(k >= 1, "C10.R1", be.tag+"|Remove|counted", fpos(c, rmf), "Remove reports the removal", "Remove(id) no longer reports the removal to the notifier")
 	}
 
+	// a packet id is given only to a message that is handed out: no drop of the same element after SetID
+	for _, be := range []struct{ pkg, tag string }{{memQ, "mem"}, {redQ, "redis"}} {
+		rd := p.Func(be.pkg, "(*Queue).Read")
+		k := 0
+		ssax.Instrs(rd, false, func(_ *ssa.Function, in ssa.Instruction) {
+			ci, ok := in.(ssa.CallInstruction)
+			if !ok {
+				return
+			}
+			ce := ssax.ResolveCallee(ci.Common())
+			isSet := (ce.Method != nil && ce.Method.Name() == "SetID") || (ce.Func != nil && ce.Func.Name() == "SetID")
+			if !isSet {
+				return
+			}
+			k++
+			at, dropped := ssax.PathQuery{Fn: rd, From: in, To: isDrop, NoBackEdges: true}.Find()
+			pos := ipos(c, in)
+			if dropped {
+				pos = ipos(c, at)
+			}
+			c.Check(!dropped, "C10.R1", fmt.Sprintf("%s|Read|id-only-if-handed-out#%d", be.tag, k), pos, "no drop after the packet id was assigned", "Read assigns a packet id to a message and can still drop it afterwards (size / expiry check after SetID): the id is consumed but never sent nor released, and later messages get shifted ids")
+		})
+		c.Check(k >= 1, "C10.R1", be.tag+"|Read|assigns-ids", fpos(c, rd), "Read assigns the polled packet ids", "Read no longer assigns packet ids to QoS>0 messages")
+	}
+
 	// ---- R3 / R4 shared with C01, C12, C13
 	memQueueNoWalkAfterUnlink(c, "C10.R3")
 	c12ReadFilter(c, "C10.R4", p.Func(memQ, "(*Queue).Read"), "mem")
@@ -293,6 +318,47 @@ func c10(c *core.Ctx) {
 	}
 	c.Check(found && okStrict, "C10.R6", "redis.Add|inflight-by-index", fpos(c, radd), "in-flight = index strictly below the cursor", "the redis queue classifies the element AT the read cursor as in-flight (index <= cursor): an expired unread message is booked as an expired in-flight one and the cursor moves back, so the last in-flight entry is handed out again")
 
+	// the newcomer is sacrificed for being QoS 0 only after the scan found no better victim (an expired queued
+	// message, an older queued QoS 0): its QoS is tested after the scan loop, not before or inside it
+	{
+		var header *ssa.BasicBlock
+		ssax.Instrs(madd, false, func(_ *ssa.Function, in ssa.Instruction) {
+			ph, ok := in.(*ssa.Phi)
+			if !ok {
+				return
+			}
+			for _, e := range ph.Edges {
+				if call, isCall := e.(*ssa.Call); isCall && isCallTo(call, "(*container/list.Element).Next") {
+					header = ph.Block()
+				}
+			}
+		})
+		var tests []*ssa.BinOp
+		ssax.Instrs(madd, false, func(_ *ssa.Function, in ssa.Instruction) {
+			bo, ok := in.(*ssa.BinOp)
+			if !ok || (bo.Op != token.EQL && bo.Op != token.NEQ) {
+				return
+			}
+			isNewQ := func(v ssa.Value) bool {
+				return ssax.LoadOfField("gmqtt.Message.QoS")(v) && ssax.AnyIn(ssax.Backward(v), func(w ssa.Value) bool { return w == ssa.Value(paramOf(madd, 1)) })
+			}
+			if k, isC := constInt(bo.Y); isC && k == 0 && isNewQ(bo.X) {
+				tests = append(tests, bo)
+			}
+		})
+		switch {
+		case header == nil:
+			c.Undecidedf("C10.R6", "mem.Add|scan-loop", fpos(c, madd), "cannot locate the scan over the unread messages in Add")
+		case len(tests) == 0:
+			c.Violation("C10.R6", "mem.Add|newcomer-qos0", fpos(c, madd), "Add no longer sacrifices a QoS 0 newcomer before a queued QoS>0 message")
+		default:
+			for i, t := range tests {
+				ok := header.Dominates(t.Block()) && !ssax.InLoop(t.Block())
+				c.Check(ok, "C10.R6", fmt.Sprintf("mem.Add|newcomer-qos0-after-scan#%d", i), ipos(c, t), "the newcomer's QoS is looked at after the scan", "a QoS 0 newcomer is dropped before the queue was scanned for a better victim: an expired queued message or an older queued QoS 0 message survives in its place (drop-priority order)")
+			}
+		}
+	}
+
 	// ---- R7 Remove / Replace only on the in-flight prefix
 	for _, m := range []string{"Remove", "Replace"} {
 		f := p.Func(memQ, "(*Queue)."+m)
@@ -308,6 +374,7 @@ func c10(c *core.Ctx) {
 			}
 		})
 		c.Check(okStop, "C10.R7", "mem."+m+"|inflight-prefix", fpos(c, f), "scan stops at the read cursor", m+" no longer stops at the read cursor: an unread message can be removed/replaced by packet id")
+		memQueueIdsEqualityOnly(c, "C10.R7", m)
 	}
 }
 
@@ -330,4 +397,33 @@ func directOffset(v ssa.Value) bool {
 		}
 		return false
 	}
+}
+
+// memQueueIdsEqualityOnly: the in-flight prefix of the memory queue is not ordered by packet id (after a resume
+// it can be 4,5,1,2): Remove / Replace compare ids for equality only.
+func memQueueIdsEqualityOnly(c *core.Ctx, rule, m string) {
+	f := c.P.Func("persistence/queue/mem", "(*Queue)."+m)
+	var ordered ssa.Instruction
+	ssax.Instrs(f, false, func(_ *ssa.Function, in ssa.Instruction) {
+		bo, ok := in.(*ssa.BinOp)
+		if !ok || (bo.Op != token.LSS && bo.Op != token.GTR && bo.Op != token.LEQ && bo.Op != token.GEQ) {
+			return
+		}
+		isID := func(v ssa.Value) bool {
+			call, isCall := v.(*ssa.Call)
+			if !isCall {
+				return false
+			}
+			ce := ssax.ResolveCallee(&call.Call)
+			return (ce.Method != nil && ce.Method.Name() == "ID") || (ce.Func != nil && ce.Func.Name() == "ID")
+		}
+		if ssax.AnyIn(ssax.Backward(bo.X), isID) || ssax.AnyIn(ssax.Backward(bo.Y), isID) {
+			ordered = in
+		}
+	})
+	pos := fpos(c, f)
+	if ordered != nil {
+		pos = ipos(c, ordered)
+	}
+	c.Check(ordered == nil, rule, "mem."+m+"|ids-compared-for-equality-only", pos, "packet ids are only compared for equality", m+" orders packet ids (<, >) while searching the in-flight messages: they are not sorted by id (after a session resume the order can be 4,5,1,2), so an acknowledged message is not found and is retransmitted")
 }
